@@ -42,9 +42,9 @@ pub fn install_panic_hook() {
         } else {
             "<non-string panic payload>".to_string()
         };
-        let loc = info
-            .location()
-            .map_or("?".to_string(), |l| format!("{}:{}", normalise_path(l.file()), l.line()));
+        let loc = info.location().map_or("?".to_string(), |l| {
+            format!("{}:{}", normalise_path(l.file()), l.line())
+        });
         let t = std::thread::current();
         let thread = format!("{}/{:?}", t.name().unwrap_or("<unnamed>"), t.id());
         if let Ok(mut p) = PANICS.lock() {
@@ -130,7 +130,8 @@ pub struct Exec {
 
 /// Scratch directory holding a.llw's and b.llw's (never written) locations plus a `parser.rs`
 /// with the predicate/action implementations that go-to-definition searches for.
-pub const PARSER_RS: &str = "impl Parser {\n    fn predicate_s_1(&self) -> bool {\n        true\n    }\n    fn action_s_1(&mut self) {}\n}\n";
+pub const PARSER_RS: &str =
+    "impl Parser {\n    fn predicate_s_1(&self) -> bool {\n        true\n    }\n    fn action_s_1(&mut self) {}\n}\n";
 
 pub fn prepare_dir(dir: &Path) {
     std::fs::create_dir_all(dir).expect("create document dir");
@@ -169,7 +170,11 @@ pub fn formatting_options() -> FormattingOptions {
 
 impl Exec {
     pub fn new(dir: &Path) -> Exec {
-        Exec { cache: Some(Cache::default()), uris: doc_uris(dir), dead: false }
+        Exec {
+            cache: Some(Cache::default()),
+            uris: doc_uris(dir),
+            dead: false,
+        }
     }
 
     /// Runs a whole history on a fresh cache and returns the outcome of every step.
@@ -181,7 +186,10 @@ impl Exec {
 
     pub fn step(&mut self, ev: &Event) -> Outcome {
         if self.dead {
-            return Outcome { reply: None, panics: vec![] };
+            return Outcome {
+                reply: None,
+                panics: vec![],
+            };
         }
         let _ = take_panics();
         let uri = self.uris[ev.doc()].clone();
@@ -199,13 +207,20 @@ impl Exec {
             }
             Event::Request { req, .. } => match *req {
                 Req::Hover(l, c) => Reply::Hover(cache.hover(&uri, position(l, c)).map(|(msg, range)| Hover {
-                    contents: HoverContents::Markup(MarkupContent { kind: MarkupKind::Markdown, value: msg }),
+                    contents: HoverContents::Markup(MarkupContent {
+                        kind: MarkupKind::Markdown,
+                        value: msg,
+                    }),
                     range: Some(range),
                 })),
-                Req::Definition(l, c) => {
-                    Reply::Definition(cache.goto_definition(&uri, position(l, c)).map(GotoDefinitionResponse::Scalar))
+                Req::Definition(l, c) => Reply::Definition(
+                    cache
+                        .goto_definition(&uri, position(l, c))
+                        .map(GotoDefinitionResponse::Scalar),
+                ),
+                Req::References(l, c, with_decl) => {
+                    Reply::References(Some(cache.references(&uri, position(l, c), with_decl)))
                 }
-                Req::References(l, c, with_decl) => Reply::References(Some(cache.references(&uri, position(l, c), with_decl))),
                 Req::Completion(l, c) => Reply::Completion(cache.completion(CompletionParams {
                     text_document_position: TextDocumentPositionParams {
                         text_document: TextDocumentIdentifier { uri: uri.clone() },
@@ -224,7 +239,10 @@ impl Exec {
         }));
         let panics = take_panics();
         match res {
-            Ok(reply) => Outcome { reply: Some(reply), panics },
+            Ok(reply) => Outcome {
+                reply: Some(reply),
+                panics,
+            },
             Err(_) => {
                 self.dead = true;
                 // leak nothing: dropping the cache closes the channels, the analysis threads end
